@@ -279,6 +279,28 @@ def produced_stream(ctx):
                 obj.add_recipient(None, key)
                 v = jwe.encrypt_json(obj, None, algorithms=E.ALL_NAMES)
                 h, iv, ct, tg = v["protected"], v["iv"], v["ciphertext"], v["tag"]
+                # history: the same encryption object used again (the message sent once more / to the next recipient) -
+                # the object still holds the caller's plaintext and the second token carries DEFLATE(p), not DEFLATE(DEFLATE(p))
+                if obj.plaintext != p:
+                    ctx.report(f"encrypt_json ({ser}, zip=DEF) replaced the plaintext held by the caller's encryption object",
+                               {"plaintext": p[:40].hex(), "now": bytes(obj.plaintext)[:40].hex()}, "produced-stream:object-plaintext-changed")
+                for again in (2, 3):
+                    if ser == "flat":
+                        obj.add_recipient(None, key)
+                    try:
+                        v2 = jwe.encrypt_json(obj, None, algorithms=E.ALL_NAMES)
+                        m2 = AESGCM(kb).decrypt(d64(v2["iv"]), d64(v2["ciphertext"]) + d64(v2["tag"]), v2["protected"].encode())
+                        back2 = jwe.decrypt_json(v2, key, algorithms=E.ALL_NAMES).plaintext
+                    except Exception as e:  # noqa: BLE001
+                        m2, back2 = None, err_name(e)
+                    ctx.count("produced-stream-again", (len(p), ser, again), True, f"len{min(len(p), 999)}")
+                    if m2 != zlib.compress(p)[2:-4] or back2 != p:
+                        ctx.report(f"encryption #{again} from the same {ser} object under zip=DEF does not carry the DEFLATE stream of the plaintext "
+                                   f"(decrypts to {back2[:20]!r}... instead of the {len(p)}-octet plaintext)" if isinstance(back2, bytes) else
+                                   f"encryption #{again} from the same {ser} object under zip=DEF failed: {back2}",
+                                   {"plaintext": p[:40].hex(), "encrypted_content": (m2 or b"")[:40].hex(), "expected": zlib.compress(p)[2:-4][:40].hex()},
+                                   "produced-stream:reused-object")
+                        break
             m = AESGCM(kb).decrypt(d64(iv), d64(ct) + d64(tg), h.encode())
             ctx.count("produced-stream", (len(p), ser, m[:16]), True, f"len{min(len(p), 999)}")
             want = zlib.compress(p)[2:-4]
